@@ -2,6 +2,12 @@
 
 package sam
 
+import (
+	"bytes"
+	"strconv"
+	"strings"
+)
+
 // Property-level theorems for /verif/govc, written as client programs of the
 // contracted functions. Never called; verified modularly (each call is
 // replaced by the callee's contract).
@@ -32,6 +38,98 @@ func thmTagRoundTrip(name string, val any) {
 	//@ assert dynfloat(val) ==> dynfloat(m[name]) && asreal(m[name]) == asreal(val)
 	//@ assert dynstr(val) ==> dynstr(m[name]) && asstr(m[name]) == asstr(val)
 	//@ assert dynbytes(val) ==> dynbytes(m[name]) && len(asbytes(m[name])) == len(asbytes(val))
+	//@ assert dynbytes(val) ==> forall j int :: {hexarr(ttext(t))[j]} 0 <= j && j < len(asbytes(val)) ==> hexarr(ttext(t))[j] == asbytes(val)[j]
+	//@ assert dynbytes(val) ==> m[name] == tval(t)
 	//@ assert dynbytes(val) ==> forall j int :: 0 <= j && j < len(asbytes(val)) ==> asbytes(m[name])[j] == asbytes(val)[j]
 	_, _ = m, err
+}
+
+//@ theorem C03.recordRoundtrip
+//@   props C03
+//@   requires s != nil
+//@   requires cleanStr(s.Qname) && cleanStr(s.Rname) && cleanStr(s.Cigar) && cleanStr(s.Rnext) && cleanStr(s.Seq) && cleanStr(s.Qual)
+//@   requires forall k string :: has(s.Tags, k) ==> tagDomain(k, s.Tags[k])
+//@   loop 1
+//@     invariant 0 <= m && m <= len(texts) && len(texts) == len(s.Tags)
+//@     invariant m < len(texts) ==> 11 + m < splitN(text, 9) && splitS(text, 9, 11 + m) == e10 + tws(texts, m)
+//@     invariant m == len(texts) ==> splitN(text, 9) == 11 + m
+//@     invariant forall j int :: {splitF(text, 9, j)} 11 <= j && j < 11 + m ==> splitF(text, 9, j) == texts[j - 11]
+//@     invariant forall j int :: {texts[j]} 0 <= j && j < m ==> texts[j] == splitF(text, 9, j + 11)
+// A record whose text fields are free of TAB/CR/LF, with any integer fields and any optional fields of the supported
+// types (names colon-free; A a byte other than TAB/CR/LF, Z free of TAB/CR/LF), written by Write, is one line whose
+// TAB-separated fields parse back (parseLine) into an identical record: same mandatory fields, same tag names, each
+// tag with the same dynamic type and the same content (stated for an arbitrary tag name key).
+func thmRecordRoundTrip(s *SAM, key string) {
+	buf := &bytes.Buffer{}
+	s.Write(buf)
+	text := strings.TrimSuffix(buf.String(), "\n")
+	fields := strings.Split(text, "\t")
+	e0 := len(s.Qname)
+	e1 := e0 + 1 + len(strconv.Itoa(int(s.Flag)))
+	e2 := e1 + 1 + len(s.Rname)
+	e3 := e2 + 1 + len(strconv.Itoa(s.Pos))
+	e4 := e3 + 1 + len(strconv.Itoa(s.Mapq))
+	e5 := e4 + 1 + len(s.Cigar)
+	e6 := e5 + 1 + len(s.Rnext)
+	e7 := e6 + 1 + len(strconv.Itoa(s.Pnext))
+	e8 := e7 + 1 + len(strconv.Itoa(s.Tlen))
+	e9 := e8 + 1 + len(s.Seq)
+	e10 := e9 + 1 + len(s.Qual)
+	//@ assert len(text) == e10 + tw(texts, len(texts)) && len(texts) == len(s.Tags)
+	//@ assert forall x int :: 0 <= x && x < len(text) ==> text[x] == buf.out[x]
+	//@ assert forall j int :: 0 <= j && j < len(texts) ==> cleanStr(texts[j])
+	//@ assert forall j int :: 0 <= j && j < len(texts) ==> tagOK(texts[j])
+	//@ assert splitS(text, 9, 0) == 0 && splitE(text, 9, 0) == e0
+	//@ assert splitS(text, 9, 1) == e0 + 1 && splitE(text, 9, 1) == e1
+	//@ assert splitS(text, 9, 2) == e1 + 1 && splitE(text, 9, 2) == e2
+	//@ assert splitS(text, 9, 3) == e2 + 1 && splitE(text, 9, 3) == e3
+	//@ assert splitS(text, 9, 4) == e3 + 1 && splitE(text, 9, 4) == e4
+	//@ assert splitS(text, 9, 5) == e4 + 1 && splitE(text, 9, 5) == e5
+	//@ assert splitS(text, 9, 6) == e5 + 1 && splitE(text, 9, 6) == e6
+	//@ assert splitS(text, 9, 7) == e6 + 1 && splitE(text, 9, 7) == e7
+	//@ assert splitS(text, 9, 8) == e7 + 1 && splitE(text, 9, 8) == e8
+	//@ assert splitS(text, 9, 9) == e8 + 1 && splitE(text, 9, 9) == e9
+	//@ assert len(texts) == 0 ==> len(text) == e10
+	//@ assert tw(texts, 0) == 0
+	//@ assert len(texts) > 0 ==> e10 < len(text)
+	//@ assert len(texts) > 0 ==> buf.out[e10 + tw(texts, 0)] == 9
+	//@ assert len(texts) > 0 ==> text[e10] == 9
+	//@ assert splitS(text, 9, 10) == e9 + 1 && splitE(text, 9, 10) == e10
+	for m := 0; m < len(s.Tags); m++ {
+		//@ assert text[e10 + tw(texts, m)] == 9
+		//@ assert e10 + tws(texts, m) + len(texts[m]) <= len(text)
+		//@ assert forall x int :: e10 + tws(texts, m) <= x && x < e10 + tws(texts, m) + len(texts[m]) ==> buf.out[x] == texts[m][x - (e10 + tws(texts, m))]
+		//@ assert forall x int :: e10 + tws(texts, m) <= x && x < e10 + tws(texts, m) + len(texts[m]) ==> text[x] == texts[m][x - (e10 + tws(texts, m))]
+		//@ assert tw(texts, m + 1) == tws(texts, m) + len(texts[m])
+		//@ assert m + 1 < len(texts) ==> text[e10 + tw(texts, m + 1)] == 9
+		//@ assert m + 1 == len(texts) ==> e10 + tws(texts, m) + len(texts[m]) == len(text)
+		//@ assert forall x int :: e10 + tws(texts, m) <= x && x < e10 + tws(texts, m) + len(texts[m]) ==> text[x] != 9
+		//@ assert splitE(text, 9, 11 + m) == e10 + tws(texts, m) + len(texts[m])
+		//@ assert strEq(splitF(text, 9, 11 + m), texts[m])
+	}
+	// the mandatory fields are the renderings
+	//@ assert splitN(text, 9) == 11 + len(texts)
+	//@ assert strEq(splitF(text, 9, 0), s.Qname) && strEq(splitF(text, 9, 2), s.Rname) && strEq(splitF(text, 9, 5), s.Cigar)
+	//@ assert strEq(splitF(text, 9, 6), s.Rnext) && strEq(splitF(text, 9, 9), s.Seq) && strEq(splitF(text, 9, 10), s.Qual)
+	//@ assert strEq(splitF(text, 9, 1), itoa(s.Flag)) && strEq(splitF(text, 9, 3), itoa(s.Pos)) && strEq(splitF(text, 9, 4), itoa(s.Mapq))
+	//@ assert strEq(splitF(text, 9, 7), itoa(s.Pnext)) && strEq(splitF(text, 9, 8), itoa(s.Tlen))
+	//@ assert forall j int :: {splitF(text, 9, j)} 11 <= j && j < splitN(text, 9) ==> tagOK(splitF(text, 9, j))
+	//@ assert len(fields) == 11 + len(texts) && forall j int :: {fields[j]} {splitF(text, 9, j)} 0 <= j && j < len(fields) ==> fields[j] == splitF(text, 9, j)
+	//@ assert atoiOK(fields[1]) && atoiOK(fields[3]) && atoiOK(fields[4]) && atoiOK(fields[7]) && atoiOK(fields[8])
+	//@ assert forall j int :: 11 <= j && j < len(fields) ==> tagOK(fields[j])
+	//@ assert forall j int :: {fields[j]} 11 <= j && j < len(fields) ==> exists k string :: has(s.Tags, k) && isTagText(fields[j], k, s.Tags[k])
+	g, err := parseLine(fields)
+	//@ assert err == nil && g != nil
+	//@ assert g.Qname == s.Qname && g.Rname == s.Rname && g.Cigar == s.Cigar && g.Rnext == s.Rnext && g.Seq == s.Seq && g.Qual == s.Qual
+	//@ assert g.Flag == s.Flag && g.Pos == s.Pos && g.Mapq == s.Mapq && g.Pnext == s.Pnext && g.Tlen == s.Tlen
+	//@ assert forall k string :: has(s.Tags, k) ==> exists j int :: 11 <= j && j < len(fields) && isTagText(fields[j], k, s.Tags[k])
+	//@ assert forall k string :: has(s.Tags, k) ==> has(g.Tags, k)
+	//@ assert forall k string :: has(g.Tags, k) ==> has(s.Tags, k)
+	//@ assert forall j int :: {fields[j]} 11 <= j && j < len(fields) ==> exists k string :: has(s.Tags, k) && tname(fields[j]) == k && sameDyn(tval(fields[j]), s.Tags[k])
+	//@ assert forall k string :: has(g.Tags, k) ==> exists j int :: 11 <= j && j < len(fields) && tname(fields[j]) == k && g.Tags[k] == tval(fields[j])
+	// for an arbitrary tag name `key` (a parameter of the theorem): same presence, same dynamic type, same content
+	//@ assert has(s.Tags, key) <==> has(g.Tags, key)
+	//@ assert has(g.Tags, key) ==> exists j int :: 11 <= j && j < len(fields) && tname(fields[j]) == key && g.Tags[key] == tval(fields[j]) && sameDyn(tval(fields[j]), s.Tags[key])
+	//@ assert has(s.Tags, key) ==> sameDyn(g.Tags[key], s.Tags[key])
+	_, _, _, _ = g, err, e10, key
 }
